@@ -21,7 +21,8 @@ MANIFEST = {
              'C01_setstate_refreezes_every_array_slot (about the table regenerated from the source: every ndarray slot of every class is re-frozen), C01_no_protect_site_lost / C01_thaw_sites_whitelisted '
              '(census of the ~160 freeze sites regenerated from the AST vs the pinned table), C01_positions_allocator_publishes_frozen (AST audit of '
              'util.PositionsAllocator: every (re)allocation of the process-wide positions array is frozen before it is published). A second model '
-             '(SF/HeapGrow.v) for GROWABLE MEMBERS (block list of a TypeBlocks, label list of IndexGO / IndexHierarchyGO; steps GNew / GFrom route / GGrow): '
+             '(SF/HeapGrow.v) for GROWABLE MEMBERS (block list of a TypeBlocks, label list AND label map (AutoMap) of IndexGO / IndexHierarchyGO, the block table an '
+             'IndexHierarchy caches; steps GNew / GFrom route / GGrow): '
              'C01_growing_a_source_never_changes_a_static_container (invariant: a grow-only container shares member lists with nobody) and '
              'C01_grow_refines_value_semantics; refuted witness C01_share_with_growable_refuted. Refuted/C01.v: the hypotheses of `guarded` about caller arrays are '
              'necessary (read-only alias, own_data alias). Correspondence: (1) random + exhaustive '
@@ -52,7 +53,8 @@ IMPORTS = 'Require Import SF.Prelude SF.Heap SF.HeapGrow Gen.Gen_c01.\nLocal Ope
 # the specification side (S_step, gS_step and the comparers) lives in SF/Heap.v and SF/HeapGrow.v, which do not import the regenerated tables;
 # the S terms of the cases spell pickle flags literally (S ignores them: value semantics always re-freezes)
 IMPORTS_SPEC_ONLY = 'Require Import SF.Prelude SF.Heap SF.HeapGrow.\nLocal Open Scope nat_scope.'
-RULE = ('grow strata: a history over GNew / GFrom / GGrow, each step a public call; the model route is GShare only between two static containers; '
+RULE = ('grow strata: a history over GNew / GFrom / GGrow, each step a public call; the model route is GShare only between two static containers; the members '
+        'observed per container are label array, label MAP (membership + loc_to_iloc of every label the history has used, Frame.get of absent labels) and blocks; '
         'non-trivial = some container is built from another and something grows afterwards. large-phase: one case per freshly built small container after '
         'each regrow of the allocator; non-trivial = the allocator really regrew. heap strata: a history is a list of steps of the model alphabet (SNew / SView / SFreeze / SWrite / SConstruct / SDerive / SExpose / SFail), each '
         'executed on the real library by a public call; the stratum of a history (guarded, read-only alias, own_data alias, pickle of an Index) is decided '
@@ -69,6 +71,7 @@ ASSUMPTIONS = [
     'alphabet exclusion (stated hypothesis, refuted witness C01_own_data_view_refuted): own_data=True hands over the only writeable reference',
     'the model abstracts auto-index labels / positions (views of the global PositionsAllocator buffer) as private frozen arrays; their aliasing is masked in the shares matrix',
     'cells of object arrays holding mutable Python objects are outside the property (only ndarrays are tracked)',
+    'snapshots (api strata) = labels, values, dtypes, name, shape, depth, values_at_depth, positions, lookups through the label map, raw blocks; plus `equals` against a copy pickled before any call, after every member',
     'histories never put the same ndarray object into two slots of one container (pickle would restore it as one shared object; the model allocates one buffer per slot)',
 ]
 TRUSTED = ['tools/sfv/props/c01.py generate(): AST extraction of __setstate__ freeze statements and of the freeze-site census (fails closed on an unknown shape)']
@@ -760,15 +763,86 @@ def observe_container(obj):
         return ('TB', obj._shape, tuple(digest(b) for b in obj._blocks), tuple(str(d) for d in obj._dtypes))
     if isinstance(obj, IndexBase):
         if obj.depth > 1:
-            return (type(obj).__name__, repr(obj.name), digest(obj.values), digest(obj.positions),
-                    tuple(str(d) for d in obj.dtypes.values), tuple(t.__name__ for t in obj.index_types.values))
-        return (type(obj).__name__, repr(obj.name), digest(obj.values), digest(obj.positions))
+            return (type(obj).__name__, repr(obj.name), digest(obj.values), digest(obj.positions), tuple(obj.shape), obj.depth, len(obj),
+                    tuple(str(d) for d in obj.dtypes.values), tuple(t.__name__ for t in obj.index_types.values),
+                    tuple(digest(obj.values_at_depth(d)) for d in range(obj.depth)), _lookups(obj))
+        return (type(obj).__name__, repr(obj.name), digest(obj.values), digest(obj.positions), tuple(obj.shape), len(obj), _lookups(obj))
     if isinstance(obj, sf.Series):
         return (type(obj).__name__, repr(obj.name), digest(obj.values), observe_container(obj.index))
     if isinstance(obj, sf.Frame):
         return (type(obj).__name__, repr(obj.name), obj.shape, observe_container(obj._blocks),
                 observe_container(obj.index), observe_container(obj.columns))
     raise TypeError(type(obj))
+
+
+def _lookups(ix, limit=6):
+    '''What the label MAP of an index answers (a member separate from the label array): position and membership of the first labels.'''
+    out = []
+    try:
+        labels = list(itertools.islice(ix.__iter__(), limit))
+    except Exception as e:  # noqa
+        return ('ITER-RAISES', type(e).__name__)
+    for i, lab in enumerate(labels):
+        try:
+            if lab != lab:      # NaN / NaT labels are not looked up by value
+                continue
+        except Exception:  # noqa
+            continue
+        try:
+            pos = ix.loc_to_iloc(lab)
+            out.append((i, int(pos) if isinstance(pos, (int, np.integer)) else repr(pos), lab in ix))
+        except Exception as e:  # noqa
+            out.append((i, type(e).__name__))
+    return tuple(out)
+
+
+def probe_absent(obj, labels):
+    '''Lookups of labels that are NOT labels of the static container `obj` (e.g. labels a grow-only source gained later): every axis of
+    obj must deny them. Returns a reason string or None.'''
+    import static_frame as sf
+    from static_frame.core.index_base import IndexBase
+    axes = []
+    if isinstance(obj, IndexBase):
+        axes = [('index', obj)]
+    elif isinstance(obj, sf.Series):
+        axes = [('index', obj.index)]
+    elif isinstance(obj, sf.Frame):
+        axes = [('index', obj.index), ('columns', obj.columns)]
+    for lab in labels:
+        for aname, ix in axes:
+            try:
+                present = any((x == lab) is True for x in ix.__iter__())
+            except Exception:  # noqa
+                present = False
+            if present:
+                continue
+            try:
+                if lab in ix:
+                    return f'{lab!r} in {type(obj).__name__}.{aname} is True although it is not one of its labels {list(ix)[:6]}'
+            except Exception:  # noqa
+                pass
+            try:
+                pos = ix.loc_to_iloc(lab)
+                return f'{type(obj).__name__}.{aname}.loc_to_iloc({lab!r}) returns {pos!r} although the label is absent (len {len(ix)})'
+            except (KeyError, TypeError, ValueError):
+                pass
+            except Exception as e:  # noqa
+                return f'{type(obj).__name__}.{aname}.loc_to_iloc({lab!r}) raises {type(e).__name__} instead of KeyError'
+        if isinstance(obj, sf.Frame) and not any((x == lab) is True for x in obj.columns.__iter__()):
+            try:
+                got = obj.get(lab, _SENTINEL)
+                if got is not _SENTINEL:
+                    return f'Frame.get({lab!r}, default) does not return the default although the column is absent'
+            except Exception as e:  # noqa
+                return f'Frame.get({lab!r}, default) raises {type(e).__name__} although the column is absent'
+        if isinstance(obj, sf.Series) and not any((x == lab) is True for x in obj.index.__iter__()):
+            try:
+                got = obj.get(lab, _SENTINEL)
+                if got is not _SENTINEL:
+                    return f'Series.get({lab!r}, default) does not return the default although the label is absent'
+            except Exception as e:  # noqa
+                return f'Series.get({lab!r}, default) raises {type(e).__name__} although the label is absent'
+    return None
 
 
 def _slots_of(obj):
@@ -947,6 +1021,12 @@ def zoo(tier):
         add(r[0] + '-hier', r[1] + ' hierarchical index and columns', r[2])
     for r in frame_recipes('ff', 3, limit=1, index=lambda: sf.IndexDate(('2020-01-01', '2020-01-02', '2020-01-03'))):
         add(r[0] + '-date', r[1] + ' IndexDate index', r[2])
+    for r in frame_recipes('iif', 4, limit=1, index=lambda: sf.IndexHierarchy.from_product(('a', 'b'), (1, 2))):
+        add(r[0] + '-hier-index', r[1] + ' hierarchical index, flat columns', r[2])
+    for r in frame_recipes('iii', 3, limit=1, columns=lambda: sf.IndexHierarchy.from_labels([('x', 1), ('x', 2), ('y', 1)])):
+        add(r[0] + '-hier-columns', r[1] + ' flat index, hierarchical columns', r[2])
+    add('S-hier3', "sf.Series((1,2,3), index=sf.IndexHierarchy.from_labels([('a',1,'x'),('a',2,'x'),('b',1,'y')]))",
+        lambda: (sf.Series((1, 2, 3), index=sf.IndexHierarchy.from_labels([('a', 1, 'x'), ('a', 2, 'x'), ('b', 1, 'y')])), []))
     add('F-0rows', "sf.Frame.from_records((), columns=('a','b'))", lambda: (sf.Frame.from_records((), columns=('a', 'b')), []))
     add('F-0cols', "sf.Frame(index=(1,2,3))", lambda: (sf.Frame(index=(1, 2, 3)), []))
     add('F-0x0', 'sf.Frame()', lambda: (sf.Frame(), []))
@@ -1232,6 +1312,94 @@ NODE_SKIP = {'__orig_bases__', '__parameters__', '__class_getitem__', '__dict__'
 SKIP_SUFFIX = ('_pool',)     # process pools: covered by C18
 
 
+def extra_plans(R, member):
+    '''Valid argument combinations that the one-parameter-at-a-time pools cannot reach: key / depth level paired with its axis.'''
+    L0, L1 = R.L0, R.L1
+    d0 = getattr(getattr(R.obj, 'index', R.obj), 'depth', 1) if R.kind in ('frame', 'series') else getattr(R.obj, 'depth', 1)
+    d1 = getattr(getattr(R.obj, 'columns', None), 'depth', 1) if R.kind == 'frame' else 1
+    P = []
+
+    def plan(text, *args, **kwargs):
+        P.append(([(lambda a=a: a) for a in args], {k: (lambda v=v: v) for k, v in kwargs.items()}, text))
+    if R.kind == 'frame':
+        if member == 'relabel_shift_in':
+            if L1:
+                plan(f'({L1[0]!r}, axis=0)', L1[0], axis=0)
+                plan(f'([{L1[0]!r}], axis=0)', [L1[0]], axis=0)
+                plan(f'(slice({L1[0]!r}, {L1[-1]!r}), axis=0)', slice(L1[0], L1[-1]), axis=0)
+            if L0:
+                plan(f'({L0[0]!r}, axis=1)', L0[0], axis=1)
+                plan(f'([{L0[0]!r}, {L0[-1]!r}], axis=1)', [L0[0], L0[-1]], axis=1)
+        elif member == 'relabel_shift_out':
+            for ax, d in ((0, d0), (1, d1)):
+                plan(f'(0, axis={ax})', 0, axis=ax)
+                if d > 1:
+                    plan(f'({d - 1}, axis={ax})', d - 1, axis=ax)
+                    plan(f'([0, 1], axis={ax})', [0, 1], axis=ax)
+        elif member == 'set_index' and L1:
+            plan(f'({L1[0]!r})', L1[0])
+            plan(f'({L1[-1]!r}, drop=True)', L1[-1], drop=True)
+        elif member == 'set_index_hierarchy' and len(L1) > 1:
+            plan(f'([{L1[0]!r}, {L1[1]!r}])', [L1[0], L1[1]])
+            plan(f'([{L1[0]!r}, {L1[1]!r}], drop=True, reorder_for_hierarchy=True)', [L1[0], L1[1]], drop=True, reorder_for_hierarchy=True)
+        elif member == 'unset_index':
+            plan('()',)
+            plan('(drop=True)', drop=True)
+        elif member == 'rehierarch':
+            if d0 > 1:
+                plan(f'(index={list(range(d0))[::-1]})', index=list(range(d0))[::-1])
+            if d1 > 1:
+                plan(f'(columns={list(range(d1))[::-1]})', columns=list(range(d1))[::-1])
+        elif member == 'relabel_level_add':
+            plan("(index='L')", index='L')
+            plan("(columns='L')", columns='L')
+            plan("(index='L', columns='M')", index='L', columns='M')
+        elif member == 'relabel_level_drop':
+            if d0 > 1:
+                plan('(index=1)', index=1)
+                plan('(index=-1)', index=-1)
+            if d1 > 1:
+                plan('(columns=1)', columns=1)
+                plan('(columns=-1)', columns=-1)
+        elif member == 'relabel_flat':
+            plan('(index=True)', index=True)
+            plan('(columns=True)', columns=True)
+        elif member in ('sort_index', 'sort_columns'):
+            plan('()',)
+            plan('(ascending=False)', ascending=False)
+        elif member == 'sort_values' and L1:
+            plan(f'({L1[0]!r})', L1[0])
+            if L0:
+                plan(f'({L0[0]!r}, axis=0)', L0[0], axis=0)
+        elif member in ('reindex', 'relabel'):
+            plan('(index=reversed labels)', index=L0[::-1])
+            plan('(columns=reversed labels)', columns=L1[::-1])
+    elif R.kind == 'series':
+        if member == 'relabel_level_add':
+            plan("('L')", 'L')
+        elif member == 'relabel_level_drop' and d0 > 1:
+            plan('(1)', 1)
+            plan('(-1)', -1)
+        elif member == 'rehierarch' and d0 > 1:
+            plan(f'({list(range(d0))[::-1]})', list(range(d0))[::-1])
+        elif member == 'relabel_flat' and d0 > 1:
+            plan('()',)
+    elif R.kind == 'ih':
+        if member == 'level_add':
+            plan("('L')", 'L')
+        elif member == 'level_drop':
+            plan('(1)', 1)
+            plan('(-1)', -1)
+        elif member == 'rehierarch':
+            plan(f'({list(range(d0))[::-1]})', list(range(d0))[::-1])
+        elif member == 'flat':
+            plan('()',)
+    elif R.kind == 'index':
+        if member == 'level_add':
+            plan("('L')", 'L')
+    return P
+
+
 ROT = {}     # rotation offsets of the argument pools, per member path (reset at the start of every enumeration)
 VARARGS = {'levels': [("('a', 'b')", lambda: ('a', 'b')), ('writeable ndarray [1, 2]', lambda: _warr([1, 2]))],
            'args': [], 'others': []}
@@ -1277,6 +1445,8 @@ def call_plans(R, fn, path, rng, tmp, budget):
 
     canon = {p.name: pools[p.name][0] for p in req}
     plans.append(build(canon))
+    if len(path) == 1:
+        plans.extend(extra_plans(R, path[0][0]))
     alts = []
     for p in req:
         for alt in pools[p.name][1:]:
@@ -1378,6 +1548,12 @@ class Explorer:
             self.names = [n for n in self.names if n not in ('__matmul__', '__rmatmul__')]
         self.base = self.snap()
         self.family_arrays = [a for _, c in self.family for _, a, _ in walk_arrays(c)]
+        self.pristine = []
+        for who, c in self.family:
+            try:
+                self.pristine.append(pickle.loads(pickle.dumps(c)))
+            except Exception:  # noqa
+                self.pristine.append(None)
         self.stat('<construction>', True)
         for who, c in self.family:
             w = [p for p, a, _ in walk_arrays(c, who) if a.flags.writeable]
@@ -1530,11 +1706,38 @@ class Explorer:
             return      # plain data attributes of a transient node (key, container) are not interface members
         self.perform(p, render(p), lambda: getattr(owner, n))
 
+    def check_pristine(self, n):
+        '''The family must still equal the copies pickled before anything was called (name, dtype, class included).'''
+        if self.R.mutators and n in self.R.mutators:
+            for i, (who, c) in enumerate(self.family):
+                if i == 0:
+                    try:
+                        self.pristine[0] = pickle.loads(pickle.dumps(c))
+                    except Exception:  # noqa
+                        self.pristine[0] = None
+            return
+        for (who, c), p0 in zip(self.family, self.pristine):
+            if p0 is None:
+                continue
+            try:
+                same = p0.equals(c, compare_name=True, compare_dtype=True, compare_class=True) if hasattr(p0, 'equals') and not isinstance(c, self._tb) else observe_container(p0) == observe_container(c)
+            except Exception as e:  # noqa
+                same = False
+            if not same:
+                self.flag(n + '()' if not n.endswith(')') else n, 'state-unchanged', f'{n}(...)', f'{who} no longer equals the copy pickled before the call')
+                try:
+                    self.pristine[self.family.index((who, c))] = pickle.loads(pickle.dumps(c))
+                except Exception:  # noqa
+                    pass
+
     def run(self):
+        from static_frame.core.type_blocks import TypeBlocks
+        self._tb = TypeBlocks
         names = list(self.names)
         self.rng.shuffle(names)
         for n in names:
             self.member([], self.R.obj, n, 0)
+            self.check_pristine(n)
         # finally the caller writes into every array the receiver was built from
         for i, a in enumerate(self.R.sources):
             if a.flags.writeable and a.size:
@@ -1888,9 +2091,24 @@ class GSim:
         self.conts = []      # (kind, object)
         self.steps, self.desc, self.trace, self.first, self.violations = [], [], [], [], []
         self.fresh = 100
+        self.universe = set()   # every label used so far in this history
 
     def _static(self, obj):
         return bool(getattr(obj, 'STATIC', True))
+
+    def _map_view(self, ix):
+        '''The members the label MAP of the index answers for, over every label this history has ever used (ascending = insertion order).'''
+        out = []
+        for m in sorted(self.universe):
+            try:
+                if m in ix:
+                    pos = ix.loc_to_iloc(m)
+                    out.append(m if 0 <= int(pos) < len(ix) and int(ix.values[int(pos)]) == m else -m)
+            except KeyError:
+                out.append(-m)      # claims membership but cannot locate
+            except Exception:  # noqa
+                out.append(-1000 - m)
+        return out
 
     def observe_one(self, kind, obj):
         try:
@@ -1900,8 +2118,15 @@ class GSim:
                 blocks = [int(x) for x in v[0].tolist()] if v.shape[0] else []
                 if tuple(obj.shape) != (v.shape[0], len(blocks)) or len(obj._blocks._dtypes) != len(blocks):
                     blocks = blocks + [-1]
-                return (self._static(obj), [cols, blocks])
-            return (self._static(obj), [[int(x) for x in obj.values.tolist()]])
+                for m in sorted(self.universe):
+                    if m not in cols:
+                        try:
+                            if obj.get(m, None) is not None:
+                                blocks = blocks + [-2]
+                        except Exception:  # noqa
+                            blocks = blocks + [-3]
+                return (self._static(obj), [cols, self._map_view(obj.columns), blocks])
+            return (self._static(obj), [[int(x) for x in obj.values.tolist()], self._map_view(obj)])
         except Exception as e:  # noqa: an observation that raises is itself a change
             return (self._static(obj), [[-99]])
 
@@ -1920,15 +2145,17 @@ class GSim:
 
     def new(self, kind, static, members):
         sf = self.sf
+        members = sorted(members)       # insertion order = ascending order (grown labels are larger than all others)
+        self.universe.update(members)
         if kind == 'frame':
             cls = sf.Frame if static else sf.FrameGO
             obj = cls(np.array([members, members], dtype=np.int64).reshape(2, len(members)), columns=members) if members else cls(index=(0, 1))
-            lists = [members, members]
+            lists = [members, members, members]      # column labels, column label map, blocks
             txt = f'sf.{cls.__name__}(np.array([{members}, {members}]), columns={members})'
         else:
             cls = sf.Index if static else sf.IndexGO
             obj = cls(members)
-            lists = [members]
+            lists = [members, members]               # labels, label map
             txt = f'sf.{cls.__name__}({members})'
         self.conts.append((kind, obj))
         self.emit(f'GNew {lit.b(static)} [' + '; '.join(zl(m) for m in lists) + ']', f'c{len(self.conts) - 1} = {txt}', True)
@@ -1951,6 +2178,7 @@ class GSim:
         kind, obj = self.conts[c]
         self.fresh += 1
         m = self.fresh
+        self.universe.add(m)
         try:
             if kind == 'frame':
                 if how == 'setitem':
@@ -2077,11 +2305,14 @@ def grow_api_cases(ctx):
                 static = getattr(out, 'STATIC', True)
                 before = observe_container(out)
                 w_before = [p for p, a, _ in walk_arrays(out) if a.flags.writeable]
+                grow_axis = src.columns if hasattr(src, 'columns') else src
+                labels_before = list(grow_axis)
                 try:
                     grower(src)
                     grew = True
                 except Exception:  # noqa
                     grew = False
+                gained = [x for x in grow_axis if x not in labels_before]
                 try:
                     after = observe_container(out)
                 except Exception as e:  # noqa
@@ -2091,6 +2322,10 @@ def grow_api_cases(ctx):
                     why = f'{sname}: out = {rname}; then the source grows by {gname}: the static {type(out).__name__} changed (shape / labels / values / dtypes)'
                 elif w_before:
                     why = f'{sname}: {rname} holds writeable arrays {w_before[:3]}'
+                elif static:
+                    probe = probe_absent(out, gained)
+                    if probe:
+                        why = f'{sname}: out = {rname}; then the source grows by {gname} (gains {gained[:3]}): {probe}'
                 ctx.count('grow-api:' + ('grew' if grew else 'grow-raised'))
                 yield Case('api:grow-source', {'source': sname, 'route': rname, 'then': gname, 'source_grew': grew, 'result_static': static, 'changed': after != before},
                            py_fail=why, tags={'check': 'grow-source', 'source': sname, 'route': rname}, nontrivial=grew and static, key=f'growapi|{sname}|{rname}|{gname}')
